@@ -133,6 +133,30 @@ Fixpoint zero (v : gv) : gv :=
   | VArray l => VArray (map zero l)
   end.
 
+(* what a wiped field holds: "[secret hidden]" for a string, the zero value for everything else *)
+Definition hide (x : gv) : gv := match x with VStr _ => VStr hidden_str | _ => zero x end.
+
+(* wipeEmbedded on a struct value (secure.go, since commit ea18f48): every exported field is hidden, unexported
+   ANONYMOUS fields (struct or non-nil *struct) are wiped in turn, other unexported fields are left; anything that is
+   not a struct is left as it is (time.Time has no exported field) *)
+Fixpoint wipe (v : gv) : gv :=
+  match v with
+  | VStruct fs =>
+      VStruct (map (fun p => (fst p,
+                              if f_exported (fst p) then hide (snd p)
+                              else if f_embedded (fst p) then
+                                     match snd p with
+                                     | VPtr (Some y) => VPtr (Some (wipe y))
+                                     | _ => wipe (snd p)
+                                     end
+                              else snd p)) fs)
+  | _ => v
+  end.
+
+(* wipeEmbedded(val): through one pointer, if any *)
+Definition wipe_embedded (val : gv) : gv :=
+  match val with VPtr (Some y) => VPtr (Some (wipe y)) | x => wipe x end.
+
 Fixpoint is_zero (v : gv) : bool :=
   match v with
   | VStr s => N.eqb s 0
